@@ -346,9 +346,270 @@ def _apply_stack(ex, st, recv, args, exact=False):
     raise Undecided("AlgoStack.__call__ used modularly: not needed yet")
 
 
+# ------------------------------------------------------------------------------------- Require
+req_has = z3.Function("temp_has_required_item", dsl.Ref, dsl.Ref, z3.BoolSort())      # (target, algo): algo.item in target.temp
+req_none = z3.Function("required_item_is_None", dsl.Ref, dsl.Ref, z3.BoolSort())      # target.temp[algo.item] is None
+req_pred = z3.Function("pred_truthy_on_item", dsl.Ref, dsl.Ref, z3.BoolSort())        # truthiness of algo.pred(target.temp[algo.item])
+req_pred_f = z3.Function("pred_isFalse_on_item", dsl.Ref, dsl.Ref, z3.BoolSort())
+req_pred_t = z3.Function("pred_isTrue_on_item", dsl.Ref, dsl.Ref, z3.BoolSort())
+
+
+def verify_require(ex, contract, timeout_ms=30000):
+    """Require.__call__: the predicate's own result on the temp entry; if_none when the entry is absent or None. The key, the entry and the
+    predicate are opaque (uninterpreted per (target, algo)); every invocation of the predicate is counted."""
+    from pyvc.verify import FuncReport, discharge, entry_state
+    from pyvc.heap import OpaqueV
+    from pyvc.symexec import PyObjV, BoundFn
+    from pyvc.ext_algos import TempV
+
+    fr = FuncReport(contract.qualname)
+    name = "Require.__call__"
+    try:
+        fi = ex.prog.func(contract.qualname)
+        fr.source_hash = fi.source_hash()
+        base = type(ex)
+
+        class ItemV(object):
+            def __init__(self, target, algo):
+                self.target, self.algo = target, algo
+
+        class RequireExecutor(base):
+            def ext_in(self, a, b, st):
+                if isinstance(a, OpaqueV) and a.field == "item" and isinstance(b, TempV) and b.which == "temp":
+                    return req_has(b.owner.term, a.owner.term)
+                return base.ext_in(self, a, b, st)
+
+            def ext_load_subscript(self, st, b, i):
+                if isinstance(b, TempV) and b.which == "temp" and isinstance(i, OpaqueV) and i.field == "item":
+                    return [(st, ItemV(b.owner, i.owner))]
+                return base.ext_load_subscript(self, st, b, i)
+
+            def _is(self, a, b, st):
+                if isinstance(b, ItemV):
+                    a, b = b, a
+                if isinstance(a, ItemV) and b is NONEV:
+                    return req_none(a.target.term, a.algo.term)
+                return base._is(self, a, b, st)
+
+            def call_value(self, st, f, pos, kw):
+                if isinstance(f, OpaqueV) and f.field == "pred" and len(pos) == 1 and isinstance(pos[0], ItemV):
+                    st.ghost["pred_calls"] = st.ghost.get("pred_calls", 0) + 1
+                    t, a = pos[0].target.term, f.owner.term
+                    o = PyObjV(req_pred(t, a), req_pred_f(t, a), req_pred_t(t, a))
+                    st.assume(And(Implies(o.isfalse, Not(o.truthy)), Implies(o.istrue, o.truthy)))
+                    return [(st, o)]
+                return base.call_value(self, st, f, pos, kw)
+
+        rx = RequireExecutor.__new__(RequireExecutor)
+        rx.__dict__.update(ex.__dict__)
+        st0, self, args = entry_state(rx, contract)
+        target = args[0]
+        st0.assume(And(target.term != dsl.NONE, target.term != self.term))
+        E = st0.heap.copy()
+        exits = rx.run_function(fi, st0.fork(), self, [target])
+        fr.paths = len(exits)
+        obligs = []
+        has, none = req_has(target.term, self.term), req_none(target.term, self.term)
+        ifn = E.get(self, "if_none")
+        for (st, oc) in exits:
+            kind = oc.kind if oc.kind != "raise" else "raise:" + oc.exc
+            fr.exits[kind] = fr.exits.get(kind, 0) + 1
+            obligs.extend(st.obligs)
+            if oc.kind != "return":
+                obligs.append(Oblig("%s/always-returns" % name, st.pc, False, "post", P13))
+                continue
+            v = oc.value
+            calls = st.ghost.get("pred_calls", 0)
+            usepred = And(has, Not(none))
+            obligs.append(Oblig("%s/predicate-applied-exactly-when-the-entry-is-present-and-not-None" % name, st.pc, _zb(usepred) == (calls == 1) if calls <= 1 else False, "post", P13))
+            if isinstance(v, PyObjV):
+                obligs.append(Oblig("%s/result-is-the-predicate's-own-result-on-the-entry" % name, st.pc, And(usepred, v.truthy == req_pred(target.term, self.term), v.isfalse == req_pred_f(target.term, self.term), v.istrue == req_pred_t(target.term, self.term)), "post", P13))
+            else:
+                vb = v if not isinstance(v, bool) else z3.BoolVal(v)
+                obligs.append(Oblig("%s/default-when-absent-or-None" % name, st.pc, And(Not(usepred), vb == ifn), "post", P13))
+            x = z3.Const(dsl.fresh_name("xfr"), dsl.Ref)
+            for key in sorted(st.heap.maps.keys()):
+                a, b = st.heap.maps[key], E.ensure(key)
+                from pyvc.heap import map_same
+
+                if not map_same(a, b):
+                    obligs.append(Oblig("%s/writes-nothing:%s" % (name, key), st.pc, a.select(x) == b.select(x), "post", P13))
+        s = z3.Solver()
+        for p in st0.pc:
+            s.add(p)
+        fr.canary = str(s.check())
+        discharge(obligs, timeout_ms, fr, contract.qualname)
+        fr.stats = dict(feas_queries=rx.stats.feas_queries, feas_s=round(rx.stats.feas_time, 3), inlined=sorted(rx.stats.inlined), contracts_used=sorted(rx.stats.contracts_used))
+    except Undecided as e:
+        fr.undecided = str(e)
+    except Exception as e:
+        fr.undecided = "ENGINE-ERROR: %s\n%s" % (e, traceback.format_exc())
+    return fr
+
+
+# ------------------------------------------------------------------------------------- RunIfOutOfBounds
+Q_OOB = "bt.algos.RunIfOutOfBounds.__call__"
+
+
+def _oob_dev(heap, target, tdict, j):
+    """relative deviation of child j from its target (children loop of the real body): |(weight - t) / t|"""
+    from pyvc.ext_frames import dict_has, dict_get
+    from pyvc.dsl import absv
+
+    c = heap.list_at(target, "_childrenv", j)
+    nm = heap.get(c, "name")
+    t = dict_get(heap, tdict, nm.term)
+    return dict_has(heap, tdict, nm.term), absv((heap.get(c, "_weight") - t) / t)
+
+
+def _oob_inv(ctx):
+    st, E = ctx.cur, ctx.entry.heap
+    target = ctx.entry.locals["target"]
+    self = ctx.entry.locals["self"]
+    tdict = ctx.entry.locals["targets"].ref
+    tol = E.get(self, "tolerance")
+    rt = E.get(target, "root")
+    out = [("tree-stays-fresh", Not(st.heap.get(rt, "stale")))]
+
+    def quiet(j):
+        has, dev = _oob_dev(E, target, tdict, j)
+        return Implies(has, Not(dev > tol))
+
+    out.append(("no-child-so-far-deviates", ForallInt(0, ctx.i, quiet, name="jq")))
+    return out
+
+
+def _oob_on_iter(ctx, c):
+    st = ctx.cur
+    target = ctx.entry.locals["target"]
+    E = ctx.entry.heap
+    from .tree import child_facts as _cf
+
+    for f in _cf(E, target, ctx.i):
+        st.assume(_zb(f))
+    # the name -> child dict and the child list agree (T)
+    cc = E.list_at(target, "_childrenv", ctx.i)
+    nm = E.get(cc, "name")
+    st.assume(And(E.dict_has(target, "children", nm), E.dict_at(target, "children", nm).term == cc.term))
+    # precondition from the property's quantifier (valid weights): the target of a held child is not zero
+    tdict = ctx.entry.locals["targets"].ref
+    from pyvc.ext_frames import dict_has, dict_get
+
+    st.assume(_zb(Implies(dict_has(E, tdict, nm.term), And(dict_get(E, tdict, nm.term).ne(0), Not(dsl.isnan(dict_get(E, tdict, nm.term)))))))
+
+
+OOBLOOP = LoopSpec(_oob_inv, on_iter=_oob_on_iter, name="children against their targets")
+
+
+def verify_out_of_bounds(ex, contract, timeout_ms=30000):
+    """RunIfOutOfBounds.__call__ on a fresh tree: True exactly when some child named in temp['weights'] deviates from its target by more than
+    the tolerance (relative deviation), True when there are no target weights; never raises - refuted only inside the recorded region
+    'cash' in temp (the cash branch reads targets.value, which neither a dict nor a Series has)."""
+    from pyvc.verify import FuncReport, discharge, entry_state
+    from pyvc.ext_frames import DictObjV
+    from pyvc.ext_algos import TempV
+
+    fr = FuncReport(contract.qualname)
+    name = "RunIfOutOfBounds.__call__"
+    try:
+        fi = ex.prog.func(contract.qualname)
+        fr.source_hash = fi.source_hash()
+        base = type(ex)
+
+        class OobExecutor(base):
+            def load_attr(self, st, obj, attr):
+                if isinstance(obj, DictObjV) and attr == "value":
+                    return [(st, _Raised("AttributeError"))]   # neither dict nor Series has .value
+                return base.load_attr(self, st, obj, attr)
+
+        rx = OobExecutor.__new__(OobExecutor)
+        rx.__dict__.update(ex.__dict__)
+        st0, self, args = entry_state(rx, contract)
+        target = args[0]
+        E = st0.heap
+        rt = E.get(target, "root")
+        st0.assume(And(target.term != dsl.NONE, target.term != self.term, rt.term != dsl.NONE, Not(E.get(rt, "stale")), Not(dsl.isnan(E.get(self, "tolerance")))))
+        for f in self_facts_light(E, target):
+            st0.assume(_zb(f))
+        E = st0.heap.copy()
+        has_w = E.ensure_ghost_bool("tmp#has:temp:weights").select(target.term)
+        has_cash = E.ensure_ghost_bool("tmp#has:temp:cash").select(target.term)
+        st0.ghost["schemas"] = [children_schema(E, target)]
+        exits = rx.run_function(fi, st0.fork(), self, [target])
+        fr.paths = len(exits)
+        obligs = []
+        tol = E.get(self, "tolerance")
+        n = E.list_len(target, "_childrenv")
+        for (st, oc) in exits:
+            kind = oc.kind if oc.kind != "raise" else "raise:" + oc.exc
+            fr.exits[kind] = fr.exits.get(kind, 0) + 1
+            obligs.extend(st.obligs)
+            if oc.kind == "raise":
+                if oc.exc == "<cut>":
+                    continue
+                o = Oblig("%s/never-raises" % name, st.pc, False, "post", P13)
+                o.regions = [("C13-out-of-bounds-cash-branch-reads-targets.value", has_cash)]
+                obligs.append(o)
+                continue
+            if oc.kind != "return":
+                obligs.append(Oblig("%s/always-returns" % name, st.pc, False, "post", P13))
+                continue
+            v = oc.value
+            vb = v if not isinstance(v, bool) else z3.BoolVal(v)
+            tv = st.locals.get("targets")
+            if not isinstance(tv, DictObjV):
+                obligs.append(Oblig("%s/true-without-target-weights" % name, st.pc, And(Not(has_w), vb), "post", P13))
+                continue
+            tdict = tv.ref
+            inloop = "c" in st.locals and "deviation" in st.locals and v is True
+            if inloop:
+                # early return from the children loop: the current child is a held target beyond the tolerance
+                c = st.locals["c"]
+                nm = st.heap.get(c, "name")
+                from pyvc.ext_frames import dict_has, dict_get
+                from pyvc.dsl import absv
+
+                t = dict_get(E, tdict, nm.term)
+                obligs.append(Oblig("%s/true-only-for-a-held-target-beyond-the-tolerance" % name, st.pc,
+                                    And(dict_has(E, tdict, nm.term), E.get(c, "parent").term == target.term, absv((E.get(c, "_weight") - t) / t) > tol), "post", P13))
+            else:
+                def quiet(j):
+                    has, dev = _oob_dev(E, target, tdict, j)
+                    return Implies(has, Not(dev > tol))
+
+                o = Oblig("%s/false-only-when-no-held-target-deviates" % name, st.pc, And(Not(vb), ForallInt(0, n, quiet, name="jq")) if False else ForallInt(0, n, quiet, name="jq"), "post", P13)
+                o.schemas = list(st.ghost.get("schemas", []))
+                obligs.append(o)
+                obligs.append(Oblig("%s/after-a-quiet-loop-the-answer-is-False" % name, st.pc, Not(vb), "post", P13))
+            x = z3.Const(dsl.fresh_name("xfr"), dsl.Ref)
+            for key in sorted(st.heap.maps.keys()):
+                a, b = st.heap.maps[key], E.ensure(key)
+                if not map_same(a, b):
+                    obligs.append(Oblig("%s/writes-nothing:%s" % (name, key), st.pc, a.select(x) == b.select(x), "post", P13))
+        s = z3.Solver()
+        for p in st0.pc:
+            s.add(p)
+        fr.canary = str(s.check())
+        discharge(obligs, timeout_ms, fr, contract.qualname)
+        fr.stats = dict(feas_queries=rx.stats.feas_queries, feas_s=round(rx.stats.feas_time, 3), inlined=sorted(rx.stats.inlined), contracts_used=sorted(rx.stats.contracts_used))
+    except Undecided as e:
+        fr.undecided = str(e)
+    except Exception as e:
+        fr.undecided = "ENGINE-ERROR: %s\n%s" % (e, traceback.format_exc())
+    return fr
+
+
+def self_facts_light(heap, s):
+    from .tree import self_facts
+
+    return self_facts(heap, s)
+
+
 def contracts():
     T = [("target", "ref:StrategyBase")]
     return [
+        (RelationalContract(Q_OOB, T, None, self_cls="RunIfOutOfBounds", note="True iff some held target deviates by more than the tolerance (fresh tree)"), verify_out_of_bounds),
+        (RelationalContract("bt.algos.Require.__call__", T, None, self_cls="Require", note="pred(temp[item]) when the entry is present and not None, if_none otherwise"), verify_require),
         (RelationalContract("bt.core.AlgoStack.__call__", T, apply_stack_call, self_cls="AlgoStack", note="result == AND of algo results; invoked == prefix up to first failure + run_always algos; each once, in order"), verify_algostack),
         (RelationalContract("bt.algos.Or.__call__", T, _apply_stack, self_cls="Or", note="result == OR of branch results; every branch invoked exactly once, in order"), verify_or),
         (FunctionalContract("bt.algos.Not.__call__", T, spec_not, self_cls="Not", field_props={"*": P13, "result": P13}), None),
@@ -360,6 +621,7 @@ LOOPS = {
     ("bt.core.AlgoStack.__call__", 0): MODE1,
     ("bt.core.AlgoStack.__call__", 1): MODE2,
     ("bt.algos.Or.__call__", 0): ORLOOP,
+    (Q_OOB, 0): OOBLOOP,
 }
 
 
